@@ -170,3 +170,62 @@ for _n, _tier, _T in ((1, "quick", 60), (2, "quick", 200), (3, "thorough", 900))
        funcs=PFUNCS[-3:], assumes=[INFER_STUB],
        bound="one call of cst_parse_one_node for every statement of exactly %d code points and every running line number 1..10^6" % _n,
        )(_k2(_n))
+
+
+# P4: corpus neighbourhood - windows cut from /repo's own sources, one symbolic code point substituted or inserted ----------------------
+import glob as _glob  # noqa: E402
+import os as _os  # noqa: E402
+import random as _random  # noqa: E402
+
+_SEED = int(_os.environ.get("VERIF_SEED", "0") or 0)
+FEATURES = (("decorator", "@"), ("triple_dq", '"""'), ("continuation", "\\\n"), ("nested", "(("), ("comment", "  #"), ("dict", "{"), ("class", "class "),
+            ("lambda", "lambda "), ("fstring", '".format('), ("triple_sq", "'''"), ("semicolon", ";"), ("def_multiline", "def "))
+
+
+def _windows(limit=72):
+    """first window (whole lines, <= limit chars) showing each lexical feature, taken in sorted file order from the current tree"""
+    out = {}
+    files = sorted(f for f in _glob.glob("/repo/cdd/**/*.py", recursive=True) if "/tests/" not in f)
+    for feat, needle in FEATURES:
+        for fn in files:
+            try:
+                lines = open(fn).read().split("\n")
+            except OSError:
+                continue
+            hit = None
+            for i in range(len(lines)):
+                w = ""
+                j = i
+                while j < len(lines) and len(w) + len(lines[j]) + 1 <= limit:
+                    w += lines[j] + "\n"
+                    j += 1
+                if needle in w and len(w) > 20:
+                    hit = (fn[len("/repo/"):], i + 1, w)
+                    break
+            if hit:
+                out[feat] = hit
+                break
+    return out
+
+
+WINDOWS = _windows()
+
+
+def _win(text, pos, mode):
+    def body(c):
+        ch = chr(c)
+        s = text[:pos] + ch + (text[pos:] if mode == "ins" else text[pos + 1:])
+        d = lossless(s)
+        return d or tiles(s)
+
+    return body
+
+
+_WALL = [(feat, pos, mode) for feat, (fn, ln, text) in sorted(WINDOWS.items()) for pos in range(len(text) + 1) for mode in ("ins", "sub")
+         if not (mode == "sub" and pos >= len(text))]
+_WQ = set(_random.Random(_SEED).sample(range(len(_WALL)), min(32, len(_WALL))))
+for _i, (_feat, _pos, _mode) in enumerate(_WALL):
+    _fn, _ln, _text = WINDOWS[_feat]
+    ob("C09", "P4.win.%s.%s%03d" % (_feat, _mode, _pos), {"c": CP}, tier="quick" if _i in _WQ else "thorough", T=200, funcs=PFUNCS, assumes=[INFER_STUB],
+       bound="window of %d chars from %s:%d (feature %s) with ANY code point %s at offset %d: lossless scan and tiling" % (
+           len(_text), _fn, _ln, _feat, "inserted" if _mode == "ins" else "substituted", _pos))(_win(_text, _pos, _mode))
